@@ -1,6 +1,32 @@
 CHECK = e1(
     "./checks/c04",
-    rule="placeholder",
-    bq="placeholder", bt="placeholder", text="placeholder", note="placeholder",
+    rule="round trip: every enumerated address is encoded by IPToReversedAddr (as 4-byte and, for IPv4, also as "
+         "IPv4-mapped 16-byte net.IP), the result compared with an independently written RFC 1035 s3.5 / RFC 3596 s2.5 "
+         "name, and that name decoded by IPFromReversedAddr in the stated spellings and compared with the (unmapped) "
+         "address; accepted language: every enumerated name is decoded by IPFromReversedAddr and by an independent "
+         "label-based decoder, and an accepted name is compared with the canonical name of the returned address; one "
+         "evaluation per call of a function under test.  Non-trivial = every address of the round trip (counted once "
+         "per address: injective for the full IPv4 range, hash-deduplicated for the quotients, IPv4-mapped forms "
+         "counted with their IPv4 address) and every name that either decoder accepts (injective sub-family of the "
+         "label-sequence names by construction, the other families hash-deduplicated and disjoint from it)",
+    bq="IPv4: all 4-tuples over {0,1,9,10,99,100,199,200,255} and every octet value at every position on two "
+       "backgrounds, each as 4-byte and as ::ffff:a.b.c.d, six spellings ({lower,UPPER,alternating} x {'', '.'}); "
+       "IPv6: every nibble position x every value on four backgrounds (zero, all-f, pattern, ::ffff:1.2.3.4) and "
+       "every pair of positions x all 256 value pairs on two backgrounds (zero, ::ffff:1.2.3.4), six spellings; "
+       "net.IP of every length 0..17 other than 4 and 16 (three fillings) and nil; names: every C05 quick input "
+       "(label sequences 0..4 over 21 labels, 5 over 15 labels, x 11 roots x 3 trailing-dot variants; <=2 label "
+       "edits from the k-nibble and k-octet names) and <=2 label edits from six full-length names",
+    bt="as quick, plus all 2^32 IPv4 addresses (sharded by the first octet; per address both net.IP forms are encoded "
+       "and the name is decoded in the spellings lower and UPPER-with-dot, the other four spellings on the quotient "
+       "only), and the C05 thorough inputs (label sequences 0..5 over 21 labels, 6 over 15 labels)",
+    text="The codec is compared with an independently written canonical PTR-name codec on all 2^32 IPv4 addresses "
+         "(thorough), on a position-wise quotient of the IPv6 addresses (every nibble position and every pair of "
+         "positions) and, for the accepted language, on a label-sequence space with every near-miss of the two name "
+         "shapes (about 7.5*10^7 evaluations quick, 1.8*10^10 thorough).",
+    note="Quotient argument for IPv6: encoder and decoder handle the 32 nibbles position by position with no state "
+         "other than the position, and the only cross-position condition is the ::ffff:0:0/96 test, which the "
+         "::ffff:1.2.3.4 background walks in and out of.  The reference codec is pinned to the RFC 1035 and RFC 3596 "
+         "examples by a start-up self-test.  Latitude: the ip6.arpa name of an IPv4-mapped address is accepted and "
+         "yields the 16-byte address; this is taken as conforming (it is the RFC 3596 name of the value returned).",
     design="DESIGN.md 2.1, 3 (C04)")
 CHECK["stages"][0]["gomaxprocs"] = 2
